@@ -20,6 +20,9 @@ type Anchors struct {
 	TreePkg, SyntaxPkg, TypesPkg, MuxPkg, TracePkg *types.Package
 
 	NodeT, TreeT, SegmentT, ContextT, SegTypeT *types.Named
+	// LockIsValue: the tree lock is a mutex value guarded by a boolean flag field (FLockFlag) instead of a nil-able pointer
+	LockIsValue bool
+	FLockFlag   string
 	// Missing: field roles that could not be resolved on this tree (the field names then hold a sentinel)
 	Missing []string
 
@@ -173,13 +176,20 @@ func Resolve(p *an.Prog) *Anchors {
 
 	treeS := a.TreeT.Underlying().(*types.Struct)
 	a.FLocker = pick(treeS, "Tree", "lock", func(t types.Type) bool {
-		p, ok := t.(*types.Pointer)
-		if !ok {
-			return false
+		// a *sync.RWMutex that is nil when locking is off, or a sync.RWMutex value next to an "enabled" flag
+		if p, ok := t.(*types.Pointer); ok {
+			t = p.Elem()
 		}
-		n, ok := p.Elem().(*types.Named)
+		n, ok := types.Unalias(t).(*types.Named)
 		return ok && n.Obj().Pkg() != nil && n.Obj().Pkg().Path() == "sync" && n.Obj().Name() == "RWMutex"
 	}, "locker")
+	for i := 0; i < treeS.NumFields(); i++ {
+		if treeS.Field(i).Name() == a.FLocker {
+			if _, isPtr := treeS.Field(i).Type().(*types.Pointer); !isPtr {
+				a.LockIsValue = true
+			}
+		}
+	}
 	a.FCounters = pick(treeS, "Tree", "method counters", func(t types.Type) bool {
 		m, ok := t.(*types.Map)
 		if !ok {
@@ -339,7 +349,10 @@ func Resolve(p *an.Prog) *Anchors {
 	if a.MethodTable == nil {
 		an.Fatalf("UNRESOLVED anchor: method table")
 	}
-	if a.IndexBuilder == nil || a.NodeSummaryBuilder == nil || a.TreeSummaryBuilder == nil || a.MemoBuilder == nil {
+	if a.IndexBuilder == nil && a.NodeSummaryBuilder != nil && a.TreeSummaryBuilder != nil && a.MemoBuilder != nil {
+		// no function fills the first-byte index (its field may be unresolved): the index rules report that
+		a.Missing = append(a.Missing, "index builder (no function rebuilds node."+a.FIndexes+")")
+	} else if a.IndexBuilder == nil || a.NodeSummaryBuilder == nil || a.TreeSummaryBuilder == nil || a.MemoBuilder == nil {
 		an.Fatalf("UNRESOLVED anchor: builders index=%v nodeSummary=%v treeSummary=%v memo=%v", a.IndexBuilder, a.NodeSummaryBuilder, a.TreeSummaryBuilder, a.MemoBuilder)
 	}
 
@@ -390,6 +403,31 @@ func Resolve(p *an.Prog) *Anchors {
 	a.TreeRoutes = p.MustFunc("tree.(*Tree).Routes")
 	a.TreeURL = p.MustFunc("tree.(*Tree).URL")
 	a.TreeNew = p.MustFunc("tree.New")
+	if a.LockIsValue {
+		// the flag: the bool field of Tree that the constructor fills with one of its own bool parameters
+		an.AllInstrs(a.TreeNew, func(in ssa.Instruction) {
+			st, ok := in.(*ssa.Store)
+			if !ok {
+				return
+			}
+			fa, ok := st.Addr.(*ssa.FieldAddr)
+			if !ok {
+				return
+			}
+			if _, isPar := st.Val.(*ssa.Parameter); !isPar {
+				return
+			}
+			if b, isB := st.Val.Type().Underlying().(*types.Basic); !isB || b.Kind() != types.Bool {
+				return
+			}
+			if n := namedOf(fa.X.Type()); n != nil && n.Origin() == a.TreeT.Origin() {
+				a.FLockFlag = an.FieldName(fa.X.Type(), fa.Field)
+			}
+		})
+		if a.FLockFlag == "" {
+			a.Missing = append(a.Missing, "Tree flag that enables the lock value")
+		}
+	}
 
 	// the 405 key: the string constant of the tree package used as key in a
 	// handler-map lookup on the not-served return of Tree.Handler
@@ -441,7 +479,9 @@ func (a *Anchors) Describe(r *an.Report) {
 	r.Anchor("parentLink", "node."+a.FParent)
 	r.Anchor("treeLock", "Tree."+a.FLocker)
 	r.Anchor("treeCounters", "Tree."+a.FCounters)
-	r.Anchor("indexBuilder", an.FuncKey(a.IndexBuilder)+" ("+p.Pos(a.IndexBuilder.Pos())+")")
+	if a.IndexBuilder != nil {
+		r.Anchor("indexBuilder", an.FuncKey(a.IndexBuilder)+" ("+p.Pos(a.IndexBuilder.Pos())+")")
+	}
 	r.Anchor("nodeSummaryBuilder", an.FuncKey(a.NodeSummaryBuilder)+" ("+p.Pos(a.NodeSummaryBuilder.Pos())+")")
 	r.Anchor("treeSummaryBuilder", an.FuncKey(a.TreeSummaryBuilder)+" ("+p.Pos(a.TreeSummaryBuilder.Pos())+")")
 	r.Anchor("memoBuilder", an.FuncKey(a.MemoBuilder))
@@ -479,4 +519,12 @@ func callsMentioning(f *ssa.Function, ap string) bool {
 		}
 	})
 	return found
+}
+
+func namedOf(t types.Type) *types.Named {
+	if p, ok := t.Underlying().(*types.Pointer); ok {
+		t = p.Elem()
+	}
+	n, _ := types.Unalias(t).(*types.Named)
+	return n
 }
